@@ -79,3 +79,19 @@ Lemma nonvacuous_bad_writes :
   bad_write Hw (exec Hw cf_fixed init [UStart false 1 1; UPatch false 1 1 0 4 blobA_corrupt]) (UCommit false 1 1) = true /\
   bad_write Hw (exec Hw cf_fixed init [UStart false 1 1; UPatch false 1 1 0 4 blobA]) (UCommit false 1 1) = false.
 Proof. vm_compute. repeat split; reflexivity. Qed.
+
+(* a PATCH of the upload that is still delivering its body when the same upload is committed writes
+   into the file after verify + rename: the fixed code, verification on, still serves bytes that do
+   not hash to the name (known finding C01-late-patch; such histories are excluded by race_free) *)
+Definition ops_late_patch : list (op bytes) :=
+  [UStart false 1 1; UPatch false 1 1 0 4 blobA; UCommitRaced false 1 1 0 1 [99]].
+
+Lemma late_patch_refuted :
+  exists (H : bytes -> N) (cf : cfg) (ops : list (op bytes)) (name : N) (c : bytes),
+    c_skip cf = false /\ c_memverify cf = true /\ race_free ops = false /\
+    snd (run H cf [] init ops) = [(OOk, [], []); (OOk, [], []); (OOk, [], [])] /\
+    v_data (view_of (exec H cf init ops) name) = Some c /\ H c <> name.
+Proof.
+  exists Hw, cf_fixed, ops_late_patch, 1, [99; 11; 12; 13].
+  repeat split; vm_compute; congruence.
+Qed.
